@@ -8,7 +8,11 @@ import (
 	"errors"
 	"io"
 	"math/rand"
+	"os"
+	"os/exec"
+	"path/filepath"
 	"runtime"
+	"strconv"
 	"strings"
 	"sync/atomic"
 	"time"
@@ -291,4 +295,54 @@ func GenFile(rng *rand.Rand, minBlocks int, allowBad bool) *File {
 	}
 	f.Build()
 	return f
+}
+
+// RaceRun (thorough tier): builds the calling harness command with the race detector and runs it
+// once as a child on a scratch directory; returns "" when no race was reported, else the first
+// report (or the build/run failure). The child must not call RaceRun again (VERIF_RACE_CHILD=1).
+func RaceRun(cmdName, outDir string, seed int64) string {
+	if os.Getenv("VERIF_RACE_CHILD") != "" {
+		return ""
+	}
+	vdir := os.Getenv("VERIF_DIR")
+	if vdir == "" {
+		vdir = "/verif"
+	}
+	exe := filepath.Join(outDir, "vh_race")
+	args := []string{"build", "-race", "-tags", "verif"}
+	if _, err := os.Stat(filepath.Join(outDir, "go.mod")); err == nil {
+		args = append(args, "-modfile="+filepath.Join(outDir, "go.mod"))
+	}
+	args = append(args, "-o", exe, "./cmd/"+cmdName)
+	b := exec.Command("go", args...)
+	b.Dir = filepath.Join(vdir, "harness")
+	if out, err := b.CombinedOutput(); err != nil {
+		return "race build failed: " + string(out)
+	}
+	child := filepath.Join(outDir, "race_child")
+	os.MkdirAll(child, 0o755)
+	c := exec.Command(exe, child, "--tier", "quick", "--seed", strconv.FormatInt(seed, 10))
+	c.Env = append(os.Environ(), "VERIF_RACE_CHILD=1", "GORACE=halt_on_error=0")
+	c.Dir = child
+	out, err := c.CombinedOutput()
+	os.RemoveAll(child)
+	os.Remove(exe)
+	if i := strings.Index(string(out), "WARNING: DATA RACE"); i >= 0 {
+		rep := string(out)[i:]
+		if len(rep) > 3000 {
+			rep = rep[:3000]
+		}
+		return rep
+	}
+	if err != nil {
+		return "race child failed: " + err.Error() + ": " + string(out[:min(len(out), 1500)])
+	}
+	return ""
+}
+
+func min(a, b int) int {
+	if a < b {
+		return a
+	}
+	return b
 }
